@@ -5,6 +5,10 @@ VERIF = os.path.dirname(os.path.dirname(os.path.abspath(__file__)))
 ALL = ["C%02d" % i for i in range(1, 21)]
 
 CLAIMED = {
+ "C10": dict(
+    text="Generated small designs (lattice dies with blockages and fixed modules, refined by split or grid; soft, hard, flippable and fixed modules; weighted nets; generated threshold / alpha / iteration limit) run through the real glbfloor() with the local APOPT solver; whenever it returns, the result is judged by a validity predicate (cells disjoint and inside the die, ratios in [0,1], capacity within solver tolerance, centres inside the die, fixed modules untouched and sole owners of their cells, hard modules rigid up to a mirror). A second sub-check feeds extract_solution synthetic solutions with translated and mirrored hard modules and requires the rectangles to land where the solution says (the solver itself almost never chooses a mirrored solution).",
+    note="Conditional on returning: about a third of the generated instances return (reported in evidence); solver failures, modules without any cell and empty results are counted, not judged. Trusted: exact geometry; tolerances 1e-4 (capacity), 1e-6 (centres, ownership).",
+    technique="property-based testing (Hypothesis) with a validity-predicate oracle over solver outputs, plus synthetic-solution tests of the extraction step", ref="4/C10"),
  "C20": dict(
     text="Generated (history, probe) pairs over seven operation families (netlist loading, die decomposition, allocation refinement, orthogon recognition, SAT encoding, legaliser model construction, Strop decomposition) with histories of 0-6 operations on unrelated designs 1x-1000x the base scale, including rejected designs, module-less / terminal-only netlists and post-hoc mutation of results; every case runs the probe in a freshly forked interpreter and again after the history in another fresh fork, and compares canonical digests (differential / metamorphic oracle); the parent asserts before each fork that no FRAME state exists.",
     note="Digests: floats to 12 significant digits, SAT results as projected model sets, exception types for rejections. Lattice designs (unit >= 0.1) so that verdicts are clear of any tolerance a 1000x epsilon change could move. State left by operation families not in the list is not reached.",
@@ -100,7 +104,7 @@ def main():
             level_note=c["note"],
             technique=c["technique"],
         ))
-    na = [dict(property_id=p, reason="check not built yet in this round (no technique switch intended; see DESIGN.md section 7)")
+    na = [dict(property_id=p, reason="not claimed: see DESIGN.md")
           for p in ALL if p not in CLAIMED]
     man = dict(
         version=1,
